@@ -319,6 +319,82 @@ pub fn pair_strategies(_u: &Value) -> Vec<Strat> {
     vec![Strat::Top, Strat::All, Strat::Custom(vec!["$.a".into()]), Strat::Custom(vec!["$.a".into(), "$.a.b".into(), "$.a[1]".into()])]
 }
 
+/// Wide containers: counts and positions beyond one digit / one byte (11, 100, 300 members or elements).
+pub fn wide_trees() -> Vec<Value> {
+    let mut out = vec![];
+    let base = |v: Value| json!({"iss": gen::ISS, "exp": gen::EXP, "a": v});
+    for n in [11usize, 100, 300] {
+        out.push(base(Value::Array((0..n).map(|i| json!(i)).collect())));
+        out.push(base(Value::Array((0..n).map(|i| json!({ "k": i })).collect())));
+        out.push(base(Value::Object((0..n).map(|i| (format!("m{i}"), json!(i))).collect())));
+        out.push(base(Value::Object((0..n).map(|i| (format!("m{i}"), json!({ "k": [i] }))).collect())));
+    }
+    out
+}
+pub fn wide_strategies(u: &Value) -> Vec<Strat> {
+    let mut v = vec![Strat::NoSd, Strat::Top, Strat::All];
+    // index / name neighbours that share a textual prefix: [1] vs [10] vs [100], m1 vs m10 vs m100
+    if u["a"].is_array() {
+        v.push(Strat::Custom(vec!["$.a[1]".into()]));
+        v.push(Strat::Custom(vec!["$.a[10]".into(), "$.a[10].k".into()]));
+        v.push(Strat::Custom(vec!["$.a[1]".into(), "$.a[100]".into(), "$.a[255]".into(), "$.a[256]".into()]));
+    } else {
+        v.push(Strat::Custom(vec!["$.a.m1".into()]));
+        v.push(Strat::Custom(vec!["$.a.m10".into(), "$.a.m10.k".into(), "$.a.m10.k[0]".into()]));
+        v.push(Strat::Custom(vec!["$.a".into(), "$.a.m1".into(), "$.a.m100".into(), "$.a.m255".into(), "$.a.m256".into()]));
+    }
+    v
+}
+/// A few selections for wide trees (the full enumeration is exponential in the width).
+pub fn wide_selections(u: &Value) -> Vec<Map<String, Value>> {
+    let all = gen::select_all(u);
+    let mut out = vec![all.clone(), Map::new(), json!({"a": true}).as_object().unwrap().clone()];
+    match &u["a"] {
+        Value::Array(a) => {
+            for pick in [0usize, 1, 9, 10, a.len() - 1] {
+                let sel: Vec<Value> = (0..a.len()).map(|i| if i == pick { all["a"][i].clone() } else { json!(false) }).collect();
+                out.push(json!({ "a": sel }).as_object().unwrap().clone());
+            }
+            let sel: Vec<Value> = (0..a.len()).map(|i| if i % 2 == 0 { all["a"][i].clone() } else { json!(false) }).collect();
+            out.push(json!({ "a": sel }).as_object().unwrap().clone());
+        }
+        Value::Object(m) => {
+            for pick in ["m0", "m1", "m10"] {
+                if m.contains_key(pick) {
+                    out.push(json!({"a": {pick: all["a"][pick].clone()}}).as_object().unwrap().clone());
+                }
+            }
+            let mut half = Map::new();
+            for (i, (k, _)) in m.iter().enumerate() {
+                if i % 2 == 1 {
+                    half.insert(k.clone(), all["a"][k].clone());
+                }
+            }
+            out.push(json!({ "a": half }).as_object().unwrap().clone());
+        }
+        _ => {}
+    }
+    out
+}
+/// run_structures with an explicit selection list per tree.
+pub fn run_structures_with(rep: &Report, name: &str, trees: &[Value], strategies: &(dyn Fn(&Value) -> Vec<Strat> + Sync), sels_of: &(dyn Fn(&Value) -> Vec<Map<String, Value>> + Sync), cfgs: &(dyn Fn(usize) -> Vec<Cfg> + Sync), checks: Checks) {
+    let mut items: Vec<(usize, Strat)> = vec![];
+    for (ti, t) in trees.iter().enumerate() {
+        for s in strategies(t) {
+            items.push((ti, s));
+        }
+    }
+    let before = rep.evals();
+    let sels: Vec<Vec<Map<String, Value>>> = trees.iter().map(|t| sels_of(t)).collect();
+    par_for(rep, items.len(), |i, l| {
+        let (ti, strat) = &items[i];
+        for cfg in cfgs(i) {
+            pipeline::run_cred(&trees[*ti], strat, &cfg, &sels[*ti], checks, &rep.prop, l);
+        }
+    });
+    rep.scope_done(json!({"scope": name, "trees": trees.len(), "tree_x_strategy": items.len(), "evaluations": rep.evals() - before}));
+}
+
 /// Single nested path of depth k; bit i of `pattern` says whether level i is an array (1) or object (0).
 pub fn chain(k: usize, pattern: u64) -> Value {
     let mut v = json!(7);
